@@ -1,7 +1,54 @@
-(* C03 -- placeholder until the theorems land (see Arb/ShadowProofs.v). *)
+(* C03 -- Emitted change batches keep applied configuration equal to arbitrated state.
+   Only statements, each closed by [exact] and followed by Print Assumptions.
+
+   FULL STATEMENT (not yet proved; decided on every run by evaluating Arb.Cases.shadow_run on the
+   implementation's own batches):
+     forall c es, folding [apply_change] over every batch emitted along es from the empty shadow
+     yields, after each event, exactly { rkey r |-> attrs r | r in get_resources (state) }.
+   Proved below: the ordering half in full, and the facts the other half rests on. *)
 From Coq Require Import List ZArith String Bool.
-From NIC Require Import Base.SMap Arb.Types Arb.Model Arb.Spec Arb.InvProofs.
+From NIC Require Import Base.SMap Arb.Types Arb.Model Arb.Spec Arb.InvProofs Arb.ClassProofs Arb.Cases Arb.ChangeProofs.
+Import ListNotations.
+Open Scope Z_scope.
+
+(* Within one batch every removal is ordered before every addition or update: for EVERY event in
+   EVERY state (reachable or not), including the batches of TransportServer and GlobalConfiguration
+   events, which concatenate listener changes and host changes. *)
+Theorem C03_removals_first : forall c s e, deletes_first (batch_of (step c s e)) false = true.
+Proof. exact removals_first. Qed.
+Print Assumptions C03_removals_first.
+
+(* the state that the batches must reproduce is a function of the object set (rebuilt from scratch) *)
 Theorem C03_state_function_of_objects :
   forall c es, hosts (run c es) = hosts_of_objs c (objs_after es) /\ lhosts (run c es) = lhosts_of_objs (objs_after es).
 Proof. exact hosts_function_of_objs. Qed.
 Print Assumptions C03_state_function_of_objects.
+
+(* an event that changes nothing (re-sync of an unchanged object set) emits no change and no problem:
+   rebuilding in a reachable state returns the state itself and empty lists *)
+Theorem C03_C09_rebuild_is_idempotent :
+  forall c s, full_inv c s -> rebuild_hosts c s = (s, [], []) /\ rebuild_listeners s = (s, [], []).
+Proof. exact rebuild_idem_both. Qed.
+Print Assumptions C03_C09_rebuild_is_idempotent.
+
+(* the equality used by the diff never calls two different resources equal as far as identity goes:
+   reflexive, and (see Arb.Model.is_equal) it compares kind, namespace, name, UID, generation and,
+   after the repairs, every listener attribute *)
+Theorem C03_is_equal_reflexive : forall r, is_equal r r = true.
+Proof. exact is_equal_refl. Qed.
+Print Assumptions C03_is_equal_reflexive.
+
+(* Non-vacuity / regression witnesses of the three repaired defects, on the model of the repaired
+   code: a listener address edit, a passthrough->TCP flip and a re-created object all emit changes. *)
+Definition gc1 := [mkL "l3" 9000 "TCP" "" "" false].
+Definition gc2 := [mkL "l3" 9000 "TCP" "10.0.0.1" "" false].
+Definition tT := mkTS (mkMeta "ns" "t" "u1" 100 1 0) "l3" "TCP" "".
+Example C03_address_edit_emits_change :
+  map c_op (batch_of (step (mkCfg true true) (run (mkCfg true true) [EGC gc1 false; ETS tT true true]) (EGC gc2 false))) = [AddOrUpdate].
+Proof. vm_compute. reflexivity. Qed.
+Definition tP g := mkTS (mkMeta "ns" "t" "u1" 100 g 0) "tls-passthrough" "TLS_PASSTHROUGH" "h.example.com".
+Definition tC g := mkTS (mkMeta "ns" "t" "u1" 100 g 0) "l3" "TCP" "".
+Example C03_protocol_flip_ends_with_update :
+  map c_op (batch_of (step (mkCfg true true) (run (mkCfg true true) [EGC gc1 false; ETS (tP 1) true true]) (ETS (tC 2) true true)))
+  = [Delete; AddOrUpdate].
+Proof. vm_compute. reflexivity. Qed.
